@@ -98,6 +98,8 @@ def run_case(arg):
                 feats = {lk, "comp:" + c["comp"], "bs:%d" % c["bs"], "e" if c["e"] else "", "T" if c["T"] else "", "B:%s" % c["devbs"]}
             else:
                 tree, feats = gentree.gen_tree(r, bs=c["bs"], max_entries=60)
+                if c["input"] == "glob":
+                    c["input"] = "dir"
                 if c["input"] != "dir":
                     if any(b"\n" in p or (n.target and b"\n" in n.target) for p, n in tree.items()):
                         c["input"] = "dir"
